@@ -538,8 +538,10 @@ def judge(before, op, expect, after_model, feats, raised, obs, stage):
                 detail.append({"clause": "cells-connect-same-coordinates", "object": o["name"], "cells": moved,
                                "now_connect": [_ckey(o, c) for c in moved]})
         if detail:
-            # witness: operation + exception class only (the input-shape features would split one defect over many signatures)
-            out.append(("failed-operation-leaves-consistent", f"{pre}{head} raised {raised}", [{"input": geo_feats}] + detail[:4]))
+            # witness: operation + exception class + the one input-shape feature the removal code branches on
+            # (the others would only split one defect over many signatures)
+            shape = "[no-cell-touched]" if "no-cell-touched" in geo_feats else ""
+            out.append(("failed-operation-leaves-consistent", f"{pre}{head}{shape} raised {raised}", [{"input": geo_feats}] + detail[:4]))
         out += [(c, w, d) for c, w, d in inv if "unreadable" in w]
         return out
 
